@@ -7,9 +7,9 @@ package main
 
 import (
 	"crypto/sha256"
-	"math"
 	"encoding/hex"
 	"fmt"
+	"math"
 
 	sdk "github.com/cosmos/cosmos-sdk/types"
 
@@ -56,9 +56,9 @@ type Ev struct {
 	Module   string   `json:"module"`
 	// Call / ModCreate, when accepted: the new context's id is the transaction hash followed by the
 	// big-endian message index the host application supplied (checked by the harness on the raw key)
-	CidOK bool `json:"cidok"`
-	State    string   `json:"state"`
-	Thr      int64    `json:"thr"`
+	CidOK bool   `json:"cidok"`
+	State string `json:"state"`
+	Thr   int64  `json:"thr"`
 
 	Rid  [4]int64 `json:"rid"`
 	Kind string   `json:"kind"`
@@ -309,6 +309,12 @@ func (c *Chain) Apply(e *Ev) bool {
 		out = c.Deliver(types.NewMsgRespondService(c.ridBytes(e.Rid), c.A(e.Signer), result, output))
 	case "Withdraw":
 		out = c.Deliver(types.NewMsgWithdrawEarnedFees(c.A(e.Signer), c.A(e.Prov)))
+	case "SetParams":
+		if c.Phase != "deliver" || e.RParams == nil {
+			return false
+		}
+		c.SetParams(*e.RParams)
+		out = Outcome{OK: true}
 	case "BankSend":
 		out = c.run(func(ctx sdk.Context) error {
 			return c.App.BankKeeper.SendCoins(ctx, c.A(e.Signer), c.A(e.To), sdk.NewCoins(sdk.NewCoin(Denom, sdk.NewInt(e.Amount))))
